@@ -9,6 +9,7 @@ import (
 	"golang.org/x/tools/go/ssa"
 
 	"verif/checker/internal/an"
+	"verif/checker/internal/load"
 	"verif/checker/internal/report"
 )
 
@@ -808,6 +809,9 @@ func checkLongLivedRefs(c *report.Ctx) {
 				continue
 			}
 			tn := an.TypeName(named)
+			if load.GlueStruct[named.Obj().Pkg().Path()+"."+named.Obj().Name()] && !reachableFromPinnedField(c, named) {
+				continue // a helper struct the pinned tree does not have and that no pinned struct refers to: it lives as long as the call that makes it
+			}
 			for i := 0; i < st.NumFields(); i++ {
 				f := st.Field(i)
 				if !holds(f.Type()) {
@@ -1036,4 +1040,33 @@ func checkAgentMapsCleared(c *report.Ctx) {
 			c.Check("R-RESET", "L/core."+mp+".Clear", "clearing drops every registration (both indexes re-made)", ok, fpos(f), 2, "writes: %v", fw)
 		}
 	}
+}
+
+// reachableFromPinnedField: some struct of the pinned tree (or a package-level variable) has a field whose type
+// mentions the helper struct t - then values of t can outlive the call that made them.
+func reachableFromPinnedField(c *report.Ctx, t *types.Named) bool {
+	name := t.Obj().Pkg().Path() + "." + t.Obj().Name()
+	for _, sp := range c.P.SSAPkgs {
+		for _, mem := range sp.Members {
+			switch x := mem.(type) {
+			case *ssa.Type:
+				n, ok := x.Type().(*types.Named)
+				if !ok || n == t {
+					continue
+				}
+				if st, ok := n.Underlying().(*types.Struct); ok {
+					for i := 0; i < st.NumFields(); i++ {
+						if strings.Contains(st.Field(i).Type().String(), name) {
+							return true
+						}
+					}
+				}
+			case *ssa.Global:
+				if strings.Contains(x.Type().String(), name) {
+					return true
+				}
+			}
+		}
+	}
+	return false
 }
